@@ -10,7 +10,9 @@ MANIFEST = {
                      "the atomic reference-count steps, any number of threads/handles/schedules; single-threaded API "
                      "histories as the special case) + differential correspondence of the model with the real String / "
                      "Variant / Xml::Variant / RefCount::Ptr code under a ledger allocator and a controlled scheduler",
-        "text": "Theorems over every reachable state of the Lean model (heap of counted blocks, handle slots owned by threads, "
+        "text": "Theorems (Props.lean: mt_safe, mt_step_safe, mt_write_sole, mt_view_stable, mt_sched_safe for all thread counts, programs "
+                "and schedules; ref_counts_handles, freed_once_after_last, no_inplace_write_while_shared, st_write_sole, st_quiet for all "
+                "single-threaded API histories) over every reachable state of the Lean model (heap of counted blocks, handle slots owned by threads, "
                 "atomic steps inc / dec-and-test / plain counter read / alloc / in-place write / free): counter = number of "
                 "handles (in-flight increments are handles in scratch slots), no step touches a released block, every block is "
                 "released at most once and exactly when its last handle has gone, an in-place write happens only through the sole "
@@ -328,40 +330,49 @@ def slot(kind, i):
     return KINDS.index(kind) * 4 + i
 
 
-def gen_mt_scenario(rng, hooks):
-    """setup by the main thread (shared payloads), hand-over, 2-3 thread programs over their own handles"""
+def gen_mt_scenario(rng, hooks, nt=None, nkinds=None):
+    """setup by the main thread (payloads shared over the handles of one or two kinds), hand-over,
+    2-3 thread programs over their own handles"""
     r = Ref()
-    kind = rng.choice(KINDS)
+    kinds = rng.sample(KINDS, nkinds or rng.choice([1, 1, 1, 2]))
     h = [f"hooks {hooks}"]
-    # setup: one or two payloads, shared over the four handles
-    seed_ops = {"s": ["snew 0 6162", "snew 0 61626364", "snew 0 -"], "v": ["vsets 0 6162", "vpush 0 5", "vseti 0 7"],
-                "x": ["xsets 0 6162", "xelem 0 61"], "p": ["pnew 0 3"]}[kind]
-    first = rng.choice(seed_ops)
-    h.append(first)
-    r.apply(first.split())
-    cp = {"s": "scopy", "v": "vcopy", "x": "xcopy", "p": "pcopy"}[kind]
-    asg = {"s": "sassign", "v": "vassign", "x": "xassign", "p": "passign"}[kind]
-    for i in range(1, 4):
-        c = rng.random()
-        line = f"{cp} {i} 0" if c < 0.5 else f"{asg} {i} {rng.randrange(i)}" if c < 0.8 else gen_op(rng, r, kind, [i])
-        if c < 0.8:
-            r.apply(line.split())
-        h.append(line)
-    nt = rng.choice([2, 2, 3])
-    own = {}
-    hl = [0, 1, 2, 3]
-    rng.shuffle(hl)
-    for i, v in enumerate(hl):
-        own.setdefault(1 + i % nt, []).append(v)
-    for t, vs in sorted(own.items()):
-        for v in vs:
+    nt = nt or rng.choice([2, 2, 3])
+    own = {t: [] for t in range(1, nt + 1)}       # thread -> [(kind, handle)]
+    for kind in kinds:
+        seed_ops = {"s": ["snew 0 6162", "snew 0 61626364", "snew 0 -", "slit 0 6162"], "v": ["vsets 0 6162", "vpush 0 5", "vseti 0 7"],
+                    "x": ["xsets 0 6162", "xelem 0 61"], "p": ["pnew 0 3"]}[kind]
+        first = rng.choice(seed_ops)
+        h.append(first)
+        r.apply(first.split())
+        cp = kind + "copy"
+        asg = kind + "assign"
+        for i in range(1, 4):
+            c = rng.random()
+            if c < 0.5:
+                line = f"{cp} {i} 0"
+                r.apply(line.split())
+            elif c < 0.8:
+                line = f"{asg} {i} {rng.randrange(i)}"
+                r.apply(line.split())
+            else:
+                line = gen_op(rng, r, kind, [i])
+            h.append(line)
+        hl = [0, 1, 2, 3]
+        rng.shuffle(hl)
+        off = rng.randrange(nt)
+        for i, v in enumerate(hl):
+            own[1 + (i + off) % nt].append((kind, v))
+    for t in sorted(own):
+        for kind, v in own[t]:
             h.append(f"give {slot(kind, v)} {t}")
     progs = {t: [] for t in own}
     total = rng.choice([2, 3, 4, 5, 6])
     for _ in range(total):
         t = rng.choice(sorted(own))
-        progs[t].append(gen_op(rng, r, kind, own[t]))
-    # lines must be grouped per thread in program order (any order of the prog lines is the same program)
+        if not own[t]:
+            continue
+        kind = rng.choice(sorted(set(k for k, _ in own[t])))
+        progs[t].append(gen_op(rng, r, kind, [v for k, v in own[t] if k == kind]))
     for t in sorted(progs):
         for o in progs[t]:
             h.append(f"prog {t} {o}")
@@ -383,20 +394,62 @@ def gen_mt_random(rng, hooks):
     return with_schedule(scen, sched[:n])
 
 
-def gen_mt_exhaustive(rng, hooks, nscen, depth):
+def gen_mt_exhaustive(rng, hooks, nscen, depth, nt=2):
+    """scenarios with few API calls under EVERY schedule prefix of the given length"""
     hs = []
     for _ in range(nscen):
         while True:
-            scen, tids = gen_mt_scenario(rng, hooks)
-            if len(tids) == 2 and 2 <= sum(1 for l in scen if l.startswith("prog")) <= 3:
+            scen, tids = gen_mt_scenario(rng, hooks, nt=nt, nkinds=1)
+            if nt <= sum(1 for l in scen if l.startswith("prog")) <= nt + 1:
                 break
         for sched in itertools.product(tids, repeat=depth):
             hs.append(with_schedule(scen, list(sched)))
     return hs
 
 
+BRANCH = {}
+
+
+def count_branches(out):
+    """branch-hit counters measured on the implementation's output (evidence only)"""
+    B = BRANCH
+    for o in out:
+        if " # " not in o:
+            continue
+        toks = o.split(" # ")[0].split(" ")
+        foreign_dec = set()
+        for t in toks:
+            f = t.split(".")
+            if len(f) < 2:
+                continue
+            k = f[1]
+            if k == "wr":
+                B["mt in-place write steps"] = B.get("mt in-place write steps", 0) + 1
+            elif k == "ref":
+                key = "mt counter read = 1" if f[2] == "1" else "mt counter read > 1 (clone)"
+                B[key] = B.get(key, 0) + 1
+                if f[2] == "1" and any(x != f[0] for x in foreign_dec):
+                    B["mt sole owner only after another thread released"] = B.get("mt sole owner only after another thread released", 0) + 1
+            elif k == "dec":
+                if f[2] == "0":
+                    B["mt decrement reached zero (thread frees)"] = B.get("mt decrement reached zero (thread frees)", 0) + 1
+                else:
+                    B["mt decrement > 0"] = B.get("mt decrement > 0", 0) + 1
+                    foreign_dec.add(f[0])
+            elif k == "inc":
+                B["mt increment"] = B.get("mt increment", 0) + 1
+    prev = None
+    for o in out:
+        if " | " in o and " # " not in o:
+            nf = o.count(":F")
+            if prev is not None and nf > prev:
+                B["st release of a payload"] = B.get("st release of a payload", 0) + nf - prev
+            prev = nf
+
+
 def nontrivial(h, out):
     """distinct = distinct (op kinds, final observation before `end`); non-trivial = some payload was shared"""
+    count_branches(out)
     if len(h) < 3 or len(out) < 2:
         return None
     if not any((":L:2:" in o or ":L:3:" in o or ":L:4:" in o) for o in out):
@@ -435,26 +488,28 @@ def check(ctx):
         corpus = C.load_corpus(ctx.prop)
         corpus = [[l if not l.startswith("hooks ") else f"hooks {hooks}" for l in h] for h in corpus]
         depth = 3 if quick else 4
-        ex = exhaustive(depth, rng, None if quick else 150000)
+        ex = exhaustive(depth, rng, None if quick else 250000)
         mult = 1 if proof_ok else 5
-        rnd = [gen_history(rng, rng.choice([6, 12, 24, 40])) for _ in range((6000 if quick else 40000) * mult)]
-        mtr = [gen_mt_random(rng, hooks) for _ in range((6000 if quick else 60000) * mult)]
-        mte = gen_mt_exhaustive(rng, hooks, 12 if quick else 60, 10)
+        rnd = [gen_history(rng, rng.choice([6, 12, 24, 40])) for _ in range((6000 if quick else 80000) * mult)]
+        mtr = [gen_mt_random(rng, hooks) for _ in range((6000 if quick else 150000) * mult)]
+        mte = gen_mt_exhaustive(rng, hooks, 12 if quick else 120, 10)
+        mte3 = gen_mt_exhaustive(rng, hooks, 3 if quick else 30, 7, nt=3)
         st = corpus + ex + rnd
-        mt = mtr + mte
+        mt = mtr + mte + mte3
         ctx.cov["rule"] = (
             f"single-threaded: corpus ({len(corpus)}) + all op sequences of length <= {depth} per handle kind over "
             f"{sum(len(v) for v in SMALL.values())} ops (2-3 handles; self/other arguments; {len(ex)} histories"
             f"{'' if quick else ', sampled'}) + {len(rnd)} random histories of 6..40 ops over up to 4 handles of each kind; "
-            f"multi-threaded: {len(mtr)} random scenarios (setup sharing one payload over 4 handles, 2-3 threads, 2-6 API calls) "
+            f"multi-threaded: {len(mtr)} random scenarios (setup sharing payloads over the 4 handles of 1-2 kinds, 2-3 threads, 2-6 API calls) "
             f"each under one random schedule of 6..40 entries + {len(mte) // 1024} scenarios of 2 threads under all 1024 "
-            f"schedules of their first 10 scheduling points (counter-read hooks {'present' if hooks else 'ABSENT: plain reads are not scheduling points'}); "
+            f"schedules of their first 10 scheduling points + {len(mte3) // 2187} scenarios of 3 threads under all 2187 schedules "
+            f"of their first 7 points (counter-read hooks {'present' if hooks else 'ABSENT: plain reads are not scheduling points'}); "
             "distinct_nontrivial = distinct (op-kind set, final observation) among histories in which a payload was shared")
         ctx.cov["exhaustive"] = False
         ctx.cov["open_statements"] = ["mt_safe_nested (handles nested inside shared payloads read concurrently: Props.lean OPEN block); "
                                       "payload content is flat in the model"]
         ctx.cov["exhaustive_scope"] = (f"single-threaded length<={depth} per kind: {len(ex)} histories; "
-                                       f"schedules: all of {{t1,t2}}^10 for {len(mte) // 1024} scenarios")
+                                       f"schedules: all of {{t1,t2}}^10 for {len(mte) // 1024} scenarios, all of {{t1,t2,t3}}^7 for {len(mte3) // 2187} scenarios")
         ops = {}
         for h in st + mt:
             for l in h:
@@ -467,6 +522,7 @@ def check(ctx):
         ctx.log(f"single-threaded: {len(st)} histories, {len(d1)} disagreement(s)")
         C.report_diffs(ctx, d1, harness, driver, reference, C.default_eq, "rc-single-threaded")
         d2 = C.differential(ctx, harness, driver, mt, reference, C.default_eq, nontrivial=nontrivial)
+        ctx.cov["branch_hits"] = dict(sorted(BRANCH.items()))
         ctx.log(f"multi-threaded: {len(mt)} scheduled runs, {len(d2)} disagreement(s); {ctx.cov['evaluations']} lines in total")
         C.report_diffs(ctx, d2, harness, driver, reference, C.default_eq, "rc-controlled-schedules")
     finally:
